@@ -769,6 +769,677 @@ theorem streamComputeOld_unsound :
     streamComputeOld [[1, 2], [3], [4, 5]] = some [3, 4, 5] ∧ streamComputeOld [[1, 2]] = none ∧
     (computeGraph [.stream [[1, 2], [3], [4, 5]]] 0 5).toOption.map (·.1) = some [1, 2, 3, 4, 5] := by decide
 
+
+/-! ## computation graph: lock step -/
+
+def argNodes : Arg → List Nat
+  | .node m => [m]
+  | .const _ => []
+
+def nodeArgs : NodeDef → List Nat
+  | .stream _ => []
+  | .comp _ a b => argNodes a ++ argNodes b
+
+/-- construction order: the arguments of a node were constructed before it -/
+def WFG (g : List NodeDef) : Prop := ∀ n d, g[n]? = some d → ∀ m ∈ nodeArgs d, m < n
+
+theorem argValWith_congr (r1 r2 : Nat → Option (List Int)) (n : Nat) (x : Arg)
+    (h : ∀ m, m < n → r1 m = r2 m) : argValWith r1 n x = argValWith r2 n x := by
+  cases x with
+  | const c => rfl
+  | node m =>
+    simp only [argValWith]
+    split
+    · rename_i hm; rw [h m hm]
+    · rfl
+
+theorem valAt_fuel2 (g : List NodeDef) (i : Nat) (f1 f2 n : Nat) (h1 : n < f1) (h2 : n < f2) :
+    valAt g i f1 n = valAt g i f2 n := by
+  induction f1 generalizing f2 n with
+  | zero => omega
+  | succ a ih =>
+    cases f2 with
+    | zero => omega
+    | succ b =>
+      simp only [valAt]
+      cases hg : g[n]? with
+      | none => rfl
+      | some d =>
+        cases d with
+        | stream cs => rfl
+        | comp fn x y =>
+          simp only
+          rw [argValWith_congr (valAt g i a) (valAt g i b) n x (fun m hm => ih b m (by omega) (by omega)),
+            argValWith_congr (valAt g i a) (valAt g i b) n y (fun m hm => ih b m (by omega) (by omega))]
+
+@[simp] theorem idxOk_same (i : Nat) : idxOk (some i) i = true := by simp [idxOk]
+@[simp] theorem idxOk_next (i : Nat) : idxOk (some i) (i + 1) = true := by simp [idxOk]
+@[simp] theorem needsAdvance_same (i : Nat) : needsAdvance (some i) i = false := by simp [needsAdvance]
+@[simp] theorem needsAdvance_next (i : Nat) : needsAdvance (some i) (i + 1) = true := by simp [needsAdvance]
+
+/-- node `n` is at buffer index `i`, holds the right buffer, and (stream) was pulled exactly `i+1` times -/
+def At (g : List NodeDef) (st : GState) (i n : Nat) : Prop :=
+  ∃ s d v, st[n]? = some s ∧ g[n]? = some d ∧ s.idx = some i ∧ valAt g i (n + 1) n = some v ∧ s.cur = v ∧
+    (∀ cs, d = .stream cs → s.rest = cs.drop (i + 1) ∧ s.pulls = i + 1)
+
+theorem At_congr (g : List NodeDef) (st st' : GState) (i n : Nat) (h : st'[n]? = st[n]?) (ha : At g st i n) :
+    At g st' i n := by
+  obtain ⟨s, d, v, h1, h2⟩ := ha
+  exact ⟨s, d, v, by rw [h, h1], h2⟩
+
+theorem At_idx_unique (g : List NodeDef) (st : GState) (i j n : Nat) (h1 : At g st i n) (h2 : At g st j n) : i = j := by
+  obtain ⟨s, _, _, hs, _, hi, _⟩ := h1
+  obtain ⟨s', _, _, hs', _, hj, _⟩ := h2
+  rw [hs] at hs'
+  simp only [Option.some.injEq] at hs'
+  subst hs'
+  rw [hi] at hj
+  simpa using hj
+
+
+/-- between two complete rounds, on a set `R` of nodes closed under arguments: every node is at
+index `i` or already at `i+1`, and a node at `i+1` has all its arguments at `i+1` -/
+def Mixed (g : List NodeDef) (st : GState) (i : Nat) (R : Nat → Prop) : Prop :=
+  (∀ n, R n → At g st i n ∨ At g st (i + 1) n) ∧
+  (∀ n d, R n → At g st (i + 1) n → g[n]? = some d → ∀ m ∈ nodeArgs d, At g st (i + 1) m)
+
+theorem getElem?_set_ne' (st : GState) (n j : Nat) (s : NodeState) (h : j ≠ n) : (st.set n s)[j]? = st[j]? := by
+  rw [List.getElem?_set_ne (by omega)]
+
+/-- advancing node `n` (all of whose arguments are already advanced) keeps the invariant -/
+theorem mixed_set (g : List NodeDef) (st : GState) (i : Nat) (R : Nat → Prop) (n : Nat) (s' : NodeState)
+    (hm : Mixed g st i R) (hi : At g st i n) (hat : At g (st.set n s') (i + 1) n)
+    (hargs : ∀ d, g[n]? = some d → ∀ m ∈ nodeArgs d, At g st (i + 1) m ∧ m ≠ n) :
+    Mixed g (st.set n s') i R ∧ (∀ j, At g st (i + 1) j → At g (st.set n s') (i + 1) j) := by
+  have mono : ∀ j, At g st (i + 1) j → At g (st.set n s') (i + 1) j := by
+    intro j hj
+    by_cases hjn : j = n
+    · subst hjn
+      have := At_idx_unique g st i (i + 1) j hi hj
+      omega
+    · exact At_congr g st _ (i + 1) j (getElem?_set_ne' st n j s' hjn) hj
+  refine ⟨⟨?_, ?_⟩, mono⟩
+  · intro j hj
+    by_cases hjn : j = n
+    · subst hjn; exact Or.inr hat
+    · rcases hm.1 j hj with h | h
+      · exact Or.inl (At_congr g st _ i j (getElem?_set_ne' st n j s' hjn) h)
+      · exact Or.inr (mono j h)
+  · intro j d hj hatj hd m hmem
+    by_cases hjn : j = n
+    · subst hjn
+      exact mono m (hargs d hd m hmem).1
+    · have hj' : At g st (i + 1) j :=
+        At_congr g _ st (i + 1) j (getElem?_set_ne' st n j s' hjn).symm hatj
+      exact mono m (hm.2 j d hj hj' hd m hmem)
+
+/-- what one `_get_buffer(i+1)` call achieves -/
+structure StepOut (g : List NodeDef) (st : GState) (i : Nat) (R : Nat → Prop) (n : Nat) (st' : GState) (v : List Int) : Prop where
+  val : valAt g (i + 1) (n + 1) n = some v
+  mixed : Mixed g st' i R
+  at_n : At g st' (i + 1) n
+  mono : ∀ j, At g st (i + 1) j → At g st' (i + 1) j
+  frame : ∀ j, n < j → st'[j]? = st[j]?
+
+theorem stepOut_refl (g : List NodeDef) (st : GState) (i : Nat) (R : Nat → Prop) (n : Nat) (v : List Int)
+    (hm : Mixed g st i R) (hat : At g st (i + 1) n) (hv : valAt g (i + 1) (n + 1) n = some v) : StepOut g st i R n st v :=
+  ⟨hv, hm, hat, fun _ h => h, fun _ _ => rfl⟩
+
+
+/-- the statement proved by induction on the fuel -/
+def StepSpec (g : List NodeDef) (i : Nat) (R : Nat → Prop) (fuel : Nat) : Prop :=
+  ∀ n st, n < fuel → R n → Mixed g st i R →
+    ∃ st' v, getBuffer g fuel st n (i + 1) = .ok (st', v) ∧ StepOut g st i R n st' v
+
+theorem evalArg_step (g : List NodeDef) (i : Nat) (R : Nat → Prop) (fuel : Nat) (ih : StepSpec g i R fuel)
+    (n : Nat) (hn : n ≤ fuel) (x : Arg) (hx : ∀ m ∈ argNodes x, m < n ∧ R m) (st : GState) (hm : Mixed g st i R) :
+    ∃ st' va, evalArg (fun st m => getBuffer g fuel st m (i + 1)) n st x = .ok (st', va) ∧
+      argValWith (valAt g (i + 1) n) n x = some va ∧ Mixed g st' i R ∧
+      (∀ j, At g st (i + 1) j → At g st' (i + 1) j) ∧ (∀ j, n ≤ j → st'[j]? = st[j]?) ∧
+      (∀ m ∈ argNodes x, At g st' (i + 1) m) := by
+  cases x with
+  | const c =>
+    exact ⟨st, .inr c, rfl, rfl, hm, fun _ h => h, fun _ _ => rfl, by simp [argNodes]⟩
+  | node m =>
+    obtain ⟨hmn, hRm⟩ := hx m (by simp [argNodes])
+    obtain ⟨st', v, hget, hout⟩ := ih m st (by omega) hRm hm
+    refine ⟨st', .inl v, ?_, ?_, hout.mixed, hout.mono, fun j hj => hout.frame j (by omega), ?_⟩
+    · simp only [evalArg, hmn, ↓reduceIte, hget]
+    · simp only [argValWith, hmn, ↓reduceIte]
+      rw [valAt_fuel2 g (i + 1) n (m + 1) m hmn (by omega), hout.val]
+      rfl
+    · intro m' hm'
+      simp only [argNodes, List.mem_singleton] at hm'
+      subst hm'
+      exact hout.at_n
+
+theorem getBuffer_step (g : List NodeDef) (hg : WFG g) (R : Nat → Prop)
+    (hR : ∀ n d, R n → g[n]? = some d → ∀ m ∈ nodeArgs d, R m) (i : Nat)
+    (hch : ∀ n cs, R n → g[n]? = some (.stream cs) → i + 1 < cs.length) (fuel : Nat) : StepSpec g i R fuel := by
+  induction fuel with
+  | zero => intro n st h; omega
+  | succ fuel ih =>
+    intro n st hnf hRn hm
+    rcases hm.1 n hRn with hi | hi
+    · -- the node still is at index i: it has to advance
+      obtain ⟨s, d, v0, hs, hd, hidx, hv0, hcur, hstream⟩ := hi
+      have hiAt : At g st i n := ⟨s, d, v0, hs, hd, hidx, hv0, hcur, hstream⟩
+      cases d with
+      | stream cs =>
+        obtain ⟨hrest, hpulls⟩ := hstream cs rfl
+        have hlen := hch n cs hRn hd
+        have hdrop : cs.drop (i + 1) = cs[i + 1] :: cs.drop (i + 2) := List.drop_eq_getElem_cons hlen
+        have hval : valAt g (i + 1) (n + 1) n = some cs[i + 1] := by
+          simp only [valAt, hd]
+          exact List.getElem?_eq_getElem hlen
+        obtain ⟨s', hs'⟩ : ∃ s' : NodeState, s' = { idx := some (i + 1), cur := cs[i + 1], rest := cs.drop (i + 2), pulls := s.pulls + 1 } := ⟨_, rfl⟩
+        have hnlt : n < st.length := by
+          have := List.getElem?_eq_some_iff.mp hs
+          exact this.1
+        have hat : At g (st.set n s') (i + 1) n := by
+          refine ⟨s', .stream cs, cs[i + 1], ?_, hd, by rw [hs'], hval, by rw [hs'], ?_⟩
+          · rw [List.getElem?_set_self hnlt]
+          · intro cs' hcs'
+            simp only [NodeDef.stream.injEq] at hcs'
+            subst hcs'
+            rw [hs']
+            exact ⟨rfl, by simp only; omega⟩
+        obtain ⟨hmix, hmono⟩ := mixed_set g st i R n s' hm hiAt hat (by
+          intro d' hd' m hmem
+          rw [hd] at hd'
+          simp only [Option.some.injEq] at hd'
+          subst hd'
+          simp [nodeArgs] at hmem)
+        refine ⟨st.set n s', cs[i + 1], ?_, ⟨hval, hmix, hat, hmono, ?_⟩⟩
+        · simp only [getBuffer, hd, hs, hidx, idxOk_next, needsAdvance_next, Bool.not_true, Bool.false_eq_true,
+            ↓reduceIte, hrest, hdrop, hs']
+        · intro j hj
+          exact getElem?_set_ne' st n j s' (by omega)
+      | comp f a b =>
+        have hargs_lt : ∀ m ∈ nodeArgs (.comp f a b), m < n := hg n _ hd
+        have hargs_R : ∀ m ∈ nodeArgs (.comp f a b), R m := hR n _ hRn hd
+        have hxa : ∀ m ∈ argNodes a, m < n ∧ R m := fun m hm' =>
+          ⟨hargs_lt m (by simp [nodeArgs, hm']), hargs_R m (by simp [nodeArgs, hm'])⟩
+        have hxb : ∀ m ∈ argNodes b, m < n ∧ R m := fun m hm' =>
+          ⟨hargs_lt m (by simp [nodeArgs, hm']), hargs_R m (by simp [nodeArgs, hm'])⟩
+        obtain ⟨st1, va, he1, hva, hm1, hmono1, hfr1, hat1⟩ := evalArg_step g i R fuel ih n (by omega) a hxa st hm
+        obtain ⟨st2, vb, he2, hvb, hm2, hmono2, hfr2, hat2⟩ := evalArg_step g i R fuel ih n (by omega) b hxb st1 hm1
+        have hs2 : st2[n]? = some s := by rw [hfr2 n (Nat.le_refl _), hfr1 n (Nat.le_refl _), hs]
+        have hi2 : At g st2 i n := At_congr g st st2 i n (by rw [hs2, hs]) hiAt
+        have hval : valAt g (i + 1) (n + 1) n = some (applyFn f va vb) := by
+          simp only [valAt, hd, hva, hvb, Option.bind_some, Option.map_some]
+        obtain ⟨s', hs'⟩ : ∃ s' : NodeState, s' = { s with idx := some (i + 1), cur := applyFn f va vb } := ⟨_, rfl⟩
+        have hnlt : n < st2.length := (List.getElem?_eq_some_iff.mp hs2).1
+        have hat : At g (st2.set n s') (i + 1) n := by
+          refine ⟨s', .comp f a b, applyFn f va vb, ?_, hd, by rw [hs'], hval, by rw [hs'], ?_⟩
+          · rw [List.getElem?_set_self hnlt]
+          · intro cs' hcs'; simp at hcs'
+        obtain ⟨hmix, hmono⟩ := mixed_set g st2 i R n s' hm2 hi2 hat (by
+          intro d' hd' m hmem
+          rw [hd] at hd'
+          simp only [Option.some.injEq] at hd'
+          subst hd'
+          refine ⟨?_, by have := hargs_lt m hmem; omega⟩
+          simp only [nodeArgs, List.mem_append] at hmem
+          rcases hmem with h | h
+          · exact hmono2 m (hat1 m h)
+          · exact hat2 m h)
+        refine ⟨st2.set n s', applyFn f va vb, ?_, ⟨hval, hmix, hat, fun j hj => hmono j (hmono2 j (hmono1 j hj)), ?_⟩⟩
+        · simp only [getBuffer, hd, hs, hidx, idxOk_next, needsAdvance_next, Bool.not_true, Bool.false_eq_true,
+            ↓reduceIte, he1, he2, hs2, hs']
+        · intro j hj
+          rw [getElem?_set_ne' st2 n j s' (by omega), hfr2 j (by omega), hfr1 j (by omega)]
+    · -- already advanced in this round (shared by two parents): the buffer is returned, nothing is pulled
+      obtain ⟨s, d, v0, hs, hd, hidx, hv0, hcur, hstream⟩ := hi
+      have hiAt : At g st (i + 1) n := ⟨s, d, v0, hs, hd, hidx, hv0, hcur, hstream⟩
+      refine ⟨st, v0, ?_, stepOut_refl g st i R n v0 hm hiAt hv0⟩
+      cases d with
+      | stream cs => simp [getBuffer, hd, hs, hidx, hcur]
+      | comp f a b => simp [getBuffer, hd, hs, hidx, hcur]
+
+
+/-- nodes reachable from the root through arguments -/
+inductive Reach (g : List NodeDef) (root : Nat) : Nat → Prop where
+  | root : Reach g root root
+  | step {n m : Nat} {d : NodeDef} : Reach g root n → g[n]? = some d → m ∈ nodeArgs d → Reach g root m
+
+/-- all nodes the root depends on are at buffer index `i` -/
+def Level (g : List NodeDef) (root : Nat) (st : GState) (i : Nat) : Prop := ∀ n, Reach g root n → At g st i n
+
+theorem level_mixed (g : List NodeDef) (root : Nat) (st : GState) (i : Nat) (h : Level g root st i) :
+    Mixed g st i (Reach g root) := by
+  refine ⟨fun n hn => Or.inl (h n hn), ?_⟩
+  intro n d hn hat _ _ _
+  have := At_idx_unique g st i (i + 1) n (h n hn) hat
+  omega
+
+/-- **lock step**: if every node the root depends on is at buffer index `i` and the streams have a
+buffer `i+1`, then `root._get_buffer(i+1)` succeeds (no assertion fires), returns the value of the
+root on the `(i+1)`-th buffers, and leaves every node the root depends on at index `i+1` — a stream
+shared by several parents was pulled exactly once (its pull count is `i+2`). -/
+theorem graph_lockstep (g : List NodeDef) (hg : WFG g) (root : Nat) (st : GState) (i : Nat)
+    (hl : Level g root st i)
+    (hch : ∀ n cs, Reach g root n → g[n]? = some (.stream cs) → i + 1 < cs.length) :
+    ∃ st' v, getBuffer g (root + 1) st root (i + 1) = .ok (st', v) ∧
+      valAt g (i + 1) (root + 1) root = some v ∧ Level g root st' (i + 1) := by
+  have hR : ∀ n d, Reach g root n → g[n]? = some d → ∀ m ∈ nodeArgs d, Reach g root m :=
+    fun n d hn hd m hm => Reach.step hn hd hm
+  obtain ⟨st', v, hget, hout⟩ :=
+    getBuffer_step g hg (Reach g root) hR i hch (root + 1) root st (by omega) Reach.root (level_mixed g root st i hl)
+  refine ⟨st', v, hget, hout.val, ?_⟩
+  intro n hn
+  induction hn with
+  | root => exact hout.at_n
+  | step hr hd hm ih => exact hout.mixed.2 _ _ hr ih hd _ hm
+
+/-- asking again for the current index returns the current buffer and changes nothing -/
+theorem getBuffer_same (g : List NodeDef) (st : GState) (i n fuel : Nat) (h : At g st i n) :
+    ∃ v, getBuffer g (fuel + 1) st n i = .ok (st, v) ∧ valAt g i (n + 1) n = some v := by
+  obtain ⟨s, d, v, hs, hd, hidx, hv, hcur, _⟩ := h
+  refine ⟨v, ?_, hv⟩
+  cases d with
+  | stream cs => simp [getBuffer, hd, hs, hidx, hcur]
+  | comp f a b => simp [getBuffer, hd, hs, hidx, hcur]
+
+/-- every `ComputationNode` has at least one node among its arguments (NumPy only dispatches to a
+node when one is present) -/
+def HasNodeArg (g : List NodeDef) : Prop := ∀ (n : Nat) (f : Fn) (a b : Arg), g[n]? = some (NodeDef.comp f a b) → argNodes a ++ argNodes b ≠ []
+
+/-- when the streams are exhausted the request raises `StopIteration` before anything is changed -/
+theorem graph_stop (g : List NodeDef) (hg : WFG g) (hna : HasNodeArg g) (root : Nat) (st : GState) (i : Nat)
+    (hl : Level g root st i)
+    (hch : ∀ n cs, Reach g root n → g[n]? = some (.stream cs) → cs.length = i + 1) :
+    ∀ fuel n, n < fuel → Reach g root n → getBuffer g fuel st n (i + 1) = .error .stop := by
+  intro fuel
+  induction fuel with
+  | zero => intro n h; omega
+  | succ fuel ih =>
+    intro n hnf hrn
+    obtain ⟨s, d, v0, hs, hd, hidx, hv0, hcur, hstream⟩ := hl n hrn
+    cases d with
+    | stream cs =>
+      obtain ⟨hrest, _⟩ := hstream cs rfl
+      have : cs.drop (i + 1) = [] := List.drop_eq_nil_of_le (by rw [hch n cs hrn hd]; omega)
+      simp [getBuffer, hd, hs, hidx, hrest, this]
+    | comp f a b =>
+      have hlt : ∀ m ∈ nodeArgs (.comp f a b), m < n := hg n _ hd
+      have hne := hna n f a b hd
+      cases a with
+      | node m =>
+        have hm : m < n := hlt m (by simp [nodeArgs, argNodes])
+        have := ih m (by omega) (Reach.step hrn hd (by simp [nodeArgs, argNodes]))
+        simp [getBuffer, hd, hs, hidx, evalArg, hm, this]
+      | const c =>
+        cases b with
+        | node m =>
+          have hm : m < n := hlt m (by simp [nodeArgs, argNodes])
+          have := ih m (by omega) (Reach.step hrn hd (by simp [nodeArgs, argNodes]))
+          simp [getBuffer, hd, hs, hidx, evalArg, hm, this]
+        | const c' => simp [argNodes] at hne
+
+/-- **`get_iter`**: from a state where everything the root depends on is at index `i`, with streams of
+exactly `M` buffers, iterating yields the values of the root on buffers `i, i+1, …, M-1` in order and
+then stops. -/
+theorem graph_iter (g : List NodeDef) (hg : WFG g) (hna : HasNodeArg g) (root M : Nat)
+    (hch : ∀ n cs, Reach g root n → g[n]? = some (.stream cs) → cs.length = M) :
+    ∀ k i st fuel, i + k + 1 = M → k + 1 < fuel → Level g root st i →
+      ∃ vs st', getIter g root fuel i st = .ok (vs, st') ∧
+        List.map some vs = (List.range (k + 1)).map (fun j => valAt g (i + j) (root + 1) root) := by
+  intro k
+  induction k with
+  | zero =>
+    intro i st fuel hM hf hl
+    obtain ⟨v, hget, hv⟩ := getBuffer_same g st i root root (hl root Reach.root)
+    have hstop := graph_stop g hg hna root st i hl (fun n cs hr hd => by rw [hch n cs hr hd]; omega)
+      (root + 1) root (by omega) Reach.root
+    obtain ⟨f', rfl⟩ : ∃ f', fuel = f' + 2 := ⟨fuel - 2, by omega⟩
+    refine ⟨[v], st, ?_, by simp [hv]⟩
+    simp only [getIter, hget, hstop]
+  | succ k ih =>
+    intro i st fuel hM hf hl
+    obtain ⟨v, hget, hv⟩ := getBuffer_same g st i root root (hl root Reach.root)
+    obtain ⟨st1, v1, hget1, hv1, hl1⟩ := graph_lockstep g hg root st i hl
+      (fun n cs hr hd => by rw [hch n cs hr hd]; omega)
+    obtain ⟨f', rfl⟩ : ∃ f', fuel = f' + 1 := ⟨fuel - 1, by omega⟩
+    -- the next iteration asks for index i+1 in state st: it advances to st1, and from there on ih applies
+    obtain ⟨vs, st', hiter, hvs⟩ := ih (i + 1) st1 f' (by omega) (by omega) hl1
+    -- getIter at (i+1) from st1 starts by re-reading index i+1 (no change); from st it advances first.
+    -- Both give the same continuation:
+    have hsame : getIter g root f' (i + 1) st = getIter g root f' (i + 1) st1 := by
+      obtain ⟨f'', rfl⟩ : ∃ f'', f' = f'' + 1 := ⟨f' - 1, by omega⟩
+      obtain ⟨v1', hget1', hv1'⟩ := getBuffer_same g st1 (i + 1) root root (hl1 root Reach.root)
+      have : v1' = v1 := by rw [hv1] at hv1'; exact (Option.some.inj hv1').symm
+      subst this
+      simp only [getIter, hget1, hget1']
+    refine ⟨v :: vs, st', ?_, ?_⟩
+    · simp only [getIter, hget, hsame, hiter]
+    · rw [List.range_succ_eq_map]
+      simp only [List.map_cons, List.map_map, hv, hvs]
+      simp [Function.comp_def, Nat.add_assoc, Nat.add_comm 1, hv]
+
+
+/-! ### construction (`__init__` pulls buffer 0) and `compute` -/
+
+theorem initState_getElem? (g : List NodeDef) (n : Nat) (d : NodeDef) (h : g[n]? = some d) :
+    ∃ s, (initState g)[n]? = some s ∧ s.idx = none ∧ s.pulls = 0 ∧ (∀ cs, d = .stream cs → s.rest = cs) := by
+  simp only [initState, List.getElem?_map, h, Option.map_some]
+  cases d with
+  | stream cs => exact ⟨_, rfl, rfl, rfl, fun cs' h' => by simp at h'; simp [h']⟩
+  | comp f a b => exact ⟨_, rfl, rfl, rfl, fun cs' h' => by simp at h'⟩
+
+@[simp] theorem idxOk_none : idxOk none 0 = true := by simp [idxOk]
+@[simp] theorem needsAdvance_none (i : Nat) : needsAdvance none i = true := by simp [needsAdvance]
+
+theorem evalArg_same (g : List NodeDef) (st : GState) (k : Nat) (x : Arg)
+    (hx : ∀ m ∈ argNodes x, m < k ∧ At g st 0 m) :
+    ∃ va, evalArg (fun st m => getBuffer g k st m 0) k st x = .ok (st, va) ∧ argValWith (valAt g 0 k) k x = some va := by
+  cases x with
+  | const c => exact ⟨.inr c, rfl, rfl⟩
+  | node m =>
+    obtain ⟨hmk, hat⟩ := hx m (by simp [argNodes])
+    obtain ⟨k', rfl⟩ : ∃ k', k = k' + 1 := ⟨k - 1, by omega⟩
+    obtain ⟨v, hget, hv⟩ := getBuffer_same g st 0 m k' hat
+    refine ⟨.inl v, ?_, ?_⟩
+    · simp only [evalArg, hmk, ↓reduceIte, hget]
+    · simp only [argValWith, hmk, ↓reduceIte]
+      rw [valAt_fuel2 g 0 (k' + 1) (m + 1) m hmk (by omega), hv]; rfl
+
+/-- constructing node `k` when all earlier nodes are at index 0 puts it at index 0 and touches nothing else -/
+theorem construct_node (g : List NodeDef) (hg : WFG g) (st : GState) (k : Nat) (d : NodeDef) (hd : g[k]? = some d)
+    (hne : ∀ cs, d = .stream cs → cs ≠ [])
+    (hprev : ∀ m, m < k → At g st 0 m) (s : NodeState) (hs : st[k]? = some s) (hidx : s.idx = none)
+    (hp : s.pulls = 0) (hrest : ∀ cs, d = .stream cs → s.rest = cs) :
+    ∃ st' v, getBuffer g (k + 1) st k 0 = .ok (st', v) ∧ At g st' 0 k ∧ (∀ j, j ≠ k → st'[j]? = st[j]?) := by
+  have hklt : k < st.length := (List.getElem?_eq_some_iff.mp hs).1
+  cases d with
+  | stream cs =>
+    have hr := hrest cs rfl
+    cases hcs : cs with
+    | nil => exact absurd hcs (hne cs rfl)
+    | cons c0 cs' =>
+      refine ⟨st.set k { idx := some 0, cur := c0, rest := cs', pulls := s.pulls + 1 }, c0, ?_, ?_, ?_⟩
+      · simp only [getBuffer, hd, hs, hidx, idxOk_none, needsAdvance_none, Bool.not_true, Bool.false_eq_true,
+          ↓reduceIte, hr, hcs]
+      · refine ⟨_, .stream cs, c0, List.getElem?_set_self hklt, hd, rfl, ?_, rfl, ?_⟩
+        · simp [valAt, hd, hcs]
+        · intro cs'' h''
+          simp only [NodeDef.stream.injEq] at h''
+          subst h''
+          simp [hcs, hp]
+      · intro j hj; exact getElem?_set_ne' st k j _ hj
+  | comp f a b =>
+    have hlt : ∀ m ∈ nodeArgs (.comp f a b), m < k := hg k _ hd
+    obtain ⟨va, he1, hva⟩ := evalArg_same g st k a (fun m hm => ⟨hlt m (by simp [nodeArgs, hm]), hprev m (hlt m (by simp [nodeArgs, hm]))⟩)
+    obtain ⟨vb, he2, hvb⟩ := evalArg_same g st k b (fun m hm => ⟨hlt m (by simp [nodeArgs, hm]), hprev m (hlt m (by simp [nodeArgs, hm]))⟩)
+    refine ⟨st.set k { s with idx := some 0, cur := applyFn f va vb }, applyFn f va vb, ?_, ?_, ?_⟩
+    · simp only [getBuffer, hd, hs, hidx, idxOk_none, needsAdvance_none, Bool.not_true, Bool.false_eq_true,
+        ↓reduceIte, he1, he2]
+    · refine ⟨_, .comp f a b, applyFn f va vb, List.getElem?_set_self hklt, hd, rfl, ?_, rfl, ?_⟩
+      · simp only [valAt, hd, hva, hvb, Option.bind_some, Option.map_some]
+      · intro cs h; simp at h
+    · intro j hj; exact getElem?_set_ne' st k j _ hj
+
+/-- after constructing the first `k` nodes they are all at index 0 and the others are untouched -/
+theorem construct_spec (g : List NodeDef) (hg : WFG g)
+    (hne : ∀ (n : Nat) (cs : List (List Int)), g[n]? = some (NodeDef.stream cs) → cs ≠ []) (k : Nat) (hk : k ≤ g.length) :
+    ∃ st, construct g k (initState g) = .ok st ∧ (∀ m, m < k → At g st 0 m) ∧
+      (∀ j, k ≤ j → st[j]? = (initState g)[j]?) := by
+  induction k with
+  | zero => exact ⟨initState g, rfl, fun m h => by omega, fun _ _ => rfl⟩
+  | succ k ih =>
+    obtain ⟨st, hc, hprev, hrest⟩ := ih (by omega)
+    have hkl : k < g.length := by omega
+    have hd : g[k]? = some g[k] := List.getElem?_eq_getElem hkl
+    obtain ⟨s, hs, hidx, hp, hr⟩ := initState_getElem? g k g[k] hd
+    obtain ⟨st', v, hget, hat, hfr⟩ := construct_node g hg st k g[k] hd (fun cs h => hne k cs (by rw [hd, h]))
+      hprev s (by rw [hrest k (Nat.le_refl _), hs]) hidx hp hr
+    refine ⟨st', ?_, ?_, ?_⟩
+    · simp only [construct, hc, hget]
+    · intro m hm
+      by_cases hmk : m = k
+      · subst hmk; exact hat
+      · exact At_congr g st st' 0 m (hfr m hmk) (hprev m (by omega))
+    · intro j hj
+      rw [hfr j (by omega), hrest j (by omega)]
+
+/-- **`compute()` of a node**: with all streams cut into the same number `M ≥ 1` of buffers, the graph
+is constructed without error, iterated in lock step, and the result is the concatenation over the
+buffer index of the root's value on the `i`-th buffers. -/
+theorem graph_compute (g : List NodeDef) (hg : WFG g) (hna : HasNodeArg g) (root M fuel : Nat)
+    (hroot : root < g.length) (hM : 0 < M) (hf : M < fuel)
+    (hch : ∀ (n : Nat) (cs : List (List Int)), g[n]? = some (NodeDef.stream cs) → cs.length = M) :
+    ∃ vs st, computeGraph g root fuel = .ok (List.flatten vs, st) ∧
+      List.map some vs = (List.range M).map (fun i => valAt g i (root + 1) root) := by
+  obtain ⟨st0, hc, hall, _⟩ := construct_spec g hg (fun n cs h => by
+    intro e; have := hch n cs h; rw [e] at this; simp at this; omega) g.length (Nat.le_refl _)
+  have hlt : ∀ n, Reach g root n → n < g.length := by
+    intro n hn
+    induction hn with
+    | root => exact hroot
+    | step hr hd hm ih => have := hg _ _ hd _ hm; omega
+  have hl : Level g root st0 0 := fun n hn => hall n (hlt n hn)
+  obtain ⟨k, rfl⟩ : ∃ k, M = k + 1 := ⟨M - 1, by omega⟩
+  obtain ⟨vs, st', hiter, hvs⟩ := graph_iter g hg hna root (k + 1) (fun n cs _ h => hch n cs h) k 0 st0 fuel
+    (by omega) (by omega) hl
+  refine ⟨vs, st', ?_, ?_⟩
+  · simp only [computeGraph, hc, hiter]
+  · simpa using hvs
+
+
+/-! ### streamed value = in-memory value (aligned streams, element-wise node functions) -/
+
+theorem evalMem_fuel2 (g : List NodeDef) (f1 f2 n : Nat) (h1 : n < f1) (h2 : n < f2) :
+    evalMem g f1 n = evalMem g f2 n := by
+  induction f1 generalizing f2 n with
+  | zero => omega
+  | succ a ih =>
+    cases f2 with
+    | zero => omega
+    | succ b =>
+      simp only [evalMem]
+      cases hg : g[n]? with
+      | none => rfl
+      | some d =>
+        cases d with
+        | stream cs => rfl
+        | comp fn x y =>
+          simp only
+          rw [argValWith_congr (evalMem g a) (evalMem g b) n x (fun m hm => ih b m (by omega) (by omega)),
+            argValWith_congr (evalMem g a) (evalMem g b) n y (fun m hm => ih b m (by omega) (by omega))]
+
+theorem zipWith_flatten {β} (f : β → β → β) (A B : List (List β)) (h : A.map List.length = B.map List.length) :
+    List.zipWith f A.flatten B.flatten = (List.zipWith (List.zipWith f) A B).flatten := by
+  induction A generalizing B with
+  | nil => cases B <;> simp at h ⊢
+  | cons a A ih =>
+    cases B with
+    | nil => simp at h
+    | cons b B =>
+      simp only [List.map_cons, List.cons.injEq] at h
+      simp only [List.flatten_cons, List.zipWith_cons_cons]
+      rw [List.zipWith_append h.1, ih B h.2]
+
+theorem zipWith_zipWith_lengths {β} (f : β → β → β) (A B : List (List β)) (h : A.map List.length = B.map List.length) :
+    (List.zipWith (List.zipWith f) A B).map List.length = A.map List.length := by
+  induction A generalizing B with
+  | nil => simp
+  | cons a A ih =>
+    cases B with
+    | nil => simp at h
+    | cons b B =>
+      simp only [List.map_cons, List.cons.injEq] at h
+      simp only [List.zipWith_cons_cons, List.map_cons, List.length_zipWith, ih B h.2]
+      congr 1; omega
+
+theorem map_some_inj {β} (l1 l2 : List β) (e : l1.map some = l2.map some) : l1 = l2 := by
+  have := congrArg (fun l => l.filterMap id) e
+  simpa [List.filterMap_map] using this
+
+/-- all streams are cut at the same positions -/
+def Aligned (g : List NodeDef) (lens : List Nat) : Prop :=
+  ∀ (n : Nat) (cs : List (List Int)), g[n]? = some (NodeDef.stream cs) → cs.map List.length = lens
+
+/-- chunk-wise application of a node function -/
+def applyChunks (f : Fn) : (List (List Int) ⊕ Int) → (List (List Int) ⊕ Int) → List (List Int)
+  | .inl A, .inl B => List.zipWith (List.zipWith f.app) A B
+  | .inl A, .inr c => A.map (fun x => x.map (fun v => f.app v c))
+  | .inr c, .inl B => B.map (fun y => y.map (fun v => f.app c v))
+  | .inr c, .inr d => [[f.app c d]]
+
+/-- a chunked value `V` describes argument `x`: chunk `i` is its value on the `i`-th buffers, the
+concatenation is its in-memory value -/
+def ArgRel (g : List NodeDef) (lens : List Nat) (n : Nat) (x : Arg) : (List (List Int) ⊕ Int) → Prop
+  | .inl A => A.map List.length = lens ∧
+      (∀ i (h : i < A.length), argValWith (valAt g i n) n x = some (.inl A[i])) ∧
+      argValWith (evalMem g n) n x = some (.inl A.flatten)
+  | .inr c => (∀ i, argValWith (valAt g i n) n x = some (.inr c)) ∧ argValWith (evalMem g n) n x = some (.inr c)
+
+/-- a chunked value `A` describes node `n` -/
+def NodeRel (g : List NodeDef) (lens : List Nat) (n : Nat) (A : List (List Int)) : Prop :=
+  A.map List.length = lens ∧ (∀ i (h : i < A.length), valAt g i (n + 1) n = some A[i]) ∧
+    evalMem g (n + 1) n = some A.flatten
+
+theorem node_chunks (g : List NodeDef) (hg : WFG g) (hna : HasNodeArg g) (lens : List Nat) (ha : Aligned g lens) :
+    ∀ n, n < g.length → ∃ A, NodeRel g lens n A := by
+  intro n
+  induction n using Nat.strongRecOn with
+  | _ n ih =>
+    intro hn
+    have hd : g[n]? = some g[n] := List.getElem?_eq_getElem hn
+    cases hdn : g[n] with
+    | stream cs =>
+      rw [hdn] at hd
+      refine ⟨cs, ha n cs hd, ?_, ?_⟩
+      · intro i h; simp [valAt, hd, List.getElem?_eq_getElem h]
+      · simp [evalMem, hd]
+    | comp f a b =>
+      rw [hdn] at hd
+      have hlt : ∀ m ∈ nodeArgs (.comp f a b), m < n := hg n _ hd
+      have harg : ∀ x : Arg, (∀ m ∈ argNodes x, m < n) → ∃ V, ArgRel g lens n x V := by
+        intro x hx
+        cases x with
+        | const c => exact ⟨.inr c, fun _ => rfl, rfl⟩
+        | node m =>
+          have hm : m < n := hx m (by simp [argNodes])
+          obtain ⟨A, h1, h2, h3⟩ := ih m hm (by omega)
+          refine ⟨.inl A, h1, ?_, ?_⟩
+          · intro i h
+            simp only [argValWith, hm, ↓reduceIte]
+            rw [valAt_fuel2 g i n (m + 1) m hm (by omega), h2 i h]; rfl
+          · simp only [argValWith, hm, ↓reduceIte]
+            rw [evalMem_fuel2 g n (m + 1) m hm (by omega), h3]; rfl
+      obtain ⟨Va, hVa⟩ := harg a (fun m hm => hlt m (by simp [nodeArgs, hm]))
+      obtain ⟨Vb, hVb⟩ := harg b (fun m hm => hlt m (by simp [nodeArgs, hm]))
+      have hne := hna n f a b hd
+      refine ⟨applyChunks f Va Vb, ?_⟩
+      cases Va with
+      | inl A =>
+        cases Vb with
+        | inl B =>
+          obtain ⟨a1, a2, a3⟩ := hVa
+          obtain ⟨b1, b2, b3⟩ := hVb
+          have hAB : A.map List.length = B.map List.length := by rw [a1, b1]
+          have hlen : A.length = B.length := by
+            have := congrArg List.length hAB; simpa using this
+          refine ⟨?_, ?_, ?_⟩
+          · simp only [applyChunks]
+            rw [zipWith_zipWith_lengths f.app A B hAB, a1]
+          · intro i h
+            simp only [applyChunks, List.length_zipWith] at h
+            simp only [valAt, hd, a2 i (by omega), b2 i (by omega), Option.bind_some, Option.map_some, applyFn, applyChunks,
+              List.getElem_zipWith]
+          · simp only [evalMem, hd, a3, b3, Option.bind_some, Option.map_some, applyFn, applyChunks]
+            rw [zipWith_flatten f.app A B hAB]
+        | inr c =>
+          obtain ⟨a1, a2, a3⟩ := hVa
+          obtain ⟨b2, b3⟩ := hVb
+          refine ⟨?_, ?_, ?_⟩
+          · simp only [applyChunks, List.map_map]
+            rw [← a1]; congr 1; funext x; simp
+          · intro i h
+            simp only [applyChunks, List.length_map] at h
+            simp only [valAt, hd, a2 i h, b2 i, Option.bind_some, Option.map_some, applyFn, applyChunks, List.getElem_map]
+          · simp only [evalMem, hd, a3, b3, Option.bind_some, Option.map_some, applyFn, applyChunks, List.map_flatten]
+      | inr c =>
+        cases Vb with
+        | inl B =>
+          obtain ⟨a2, a3⟩ := hVa
+          obtain ⟨b1, b2, b3⟩ := hVb
+          refine ⟨?_, ?_, ?_⟩
+          · simp only [applyChunks, List.map_map]
+            rw [← b1]; congr 1; funext x; simp
+          · intro i h
+            simp only [applyChunks, List.length_map] at h
+            simp only [valAt, hd, a2 i, b2 i h, Option.bind_some, Option.map_some, applyFn, applyChunks, List.getElem_map]
+          · simp only [evalMem, hd, a3, b3, Option.bind_some, Option.map_some, applyFn, applyChunks, List.map_flatten]
+        | inr c' =>
+          -- both arguments constant: excluded (NumPy would not have created a node)
+          exfalso
+          obtain ⟨a2, _⟩ := hVa
+          obtain ⟨b2, _⟩ := hVb
+          cases a with
+          | const _ =>
+            cases b with
+            | const _ => simp [argNodes] at hne
+            | node m =>
+              have := b2 0
+              simp only [argValWith] at this
+              split at this
+              · cases h : valAt g 0 n m <;> simp [h] at this
+              · simp at this
+          | node m =>
+            have := a2 0
+            simp only [argValWith] at this
+            split at this
+            · cases h : valAt g 0 n m <;> simp [h] at this
+            · simp at this
+
+/-- **streamed = in-memory for computation graphs**: for every graph in construction order whose
+streams are cut at the same positions (any positions, at least one buffer), `compute()` of any node
+returns exactly the value of the same expression evaluated in memory on the concatenated streams. -/
+theorem graph_value (g : List NodeDef) (hg : WFG g) (hna : HasNodeArg g) (lens : List Nat) (ha : Aligned g lens)
+    (hpos : 0 < lens.length) (root fuel : Nat) (hroot : root < g.length) (hf : lens.length < fuel) :
+    ∃ v st, computeGraph g root fuel = .ok (v, st) ∧ evalMem g (root + 1) root = some v := by
+  have hch : ∀ (n : Nat) (cs : List (List Int)), g[n]? = some (NodeDef.stream cs) → cs.length = lens.length := by
+    intro n cs h
+    have := congrArg List.length (ha n cs h)
+    simpa using this
+  obtain ⟨vs, st, hc, hvs⟩ := graph_compute g hg hna root lens.length fuel hroot hpos hf hch
+  obtain ⟨A, h1, h2, h3⟩ := node_chunks g hg hna lens ha root hroot
+  have hAl : A.length = lens.length := by
+    have := congrArg List.length h1; simpa using this
+  have : vs = A := by
+    have e : List.map some vs = List.map some A := by
+      rw [hvs]
+      apply List.ext_getElem
+      · simp [hAl]
+      · intro i hi1 hi2
+        simp only [List.getElem_map, List.getElem_range]
+        exact h2 i (by simpa using hi2)
+    exact map_some_inj _ _ e
+  subst this
+  exact ⟨vs.flatten, st, hc, h3⟩
+
+
+/-- a graph with a stream shared by two parents, cut as [2, 1] -/
+def exG : List NodeDef :=
+  [.stream [[1, 2], [3]], .stream [[10, 20], [30]], .comp .add (.node 0) (.node 1), .comp .mul (.node 2) (.node 0)]
+
+example : WFG exG := by
+  intro n d h m hm
+  rcases n with _ | _ | _ | _ | n <;> simp [exG] at h <;> subst h <;> simp [nodeArgs, argNodes] at hm <;> omega
+
+example : HasNodeArg exG := by
+  intro n f a b h
+  rcases n with _ | _ | _ | _ | n <;> simp [exG] at h
+  all_goals (obtain ⟨rfl, rfl, rfl⟩ := h; simp [argNodes])
+
+example : Aligned exG [2, 1] := by
+  intro n cs h
+  rcases n with _ | _ | _ | _ | n <;> simp [exG] at h <;> subst h <;> rfl
+
+example : (computeGraph exG 3 5).toOption.map (·.1) = some [11, 44, 99] ∧ evalMem exG 4 3 = some [11, 44, 99] := by decide
+
 /-! ## non-vacuity of the hypotheses -/
 example : IsChunking [1, 2, 3] [[1], [2, 3]] := ⟨rfl, by intro c hc; simp at hc; rcases hc with rfl | rfl <;> simp⟩
 example : Contig [1, 1, 2, 5, 5] := sorted_contig _ (by decide)
